@@ -990,6 +990,19 @@ def prop_consist(ctx):
                 for kw in v.keywords:
                     if kw.arg == 'data' and not isinstance(kw.value, ast.Name):
                         out_val = (E.val(kw.value), st)
+                if E.res(v.func) == 'pandas.DataFrame':
+                    kws = {kw.arg: kw.value for kw in v.keywords}
+                    has_data = 'data' in kws or len(v.args) >= 1
+                    idx_ = kws.get('index', v.args[1] if len(v.args) > 1 else None)
+                    ctx.ob('PROP-CONSIST', has_data and idx_ is not None and
+                           norm_text(idx_) == '%s.index' % traj, None,
+                           'result table `%s` holds the propagated values, stamped with the '
+                           'trajectory times' % t.id, f=f, node=st, key='table-' + t.id,
+                           why='the result table `%s` is built %s: it does not report the '
+                               'propagated errors at the times of the trajectory' % (
+                                   t.id, 'without data (all NaN)' if not has_data else
+                                   'with index `%s`' % (norm_text(idx_) if idx_ is not None
+                                                        else 'RangeIndex')))
                 continue
             if isinstance(t, ast.Name):
                 # x0 = T(...) @ e0  contains a call on the error model: evaluate generally
@@ -1035,12 +1048,38 @@ def prop_consist(ctx):
     for st in body:
         if isinstance(st, ast.If) and isinstance(st.test, ast.Compare) and \
                 isinstance(st.test.left, ast.Name) and st.test.left.id == init_param[0] and \
-                isinstance(st.test.ops[0], ast.Is):
+                isinstance(st.test.ops[0], (ast.Is, ast.IsNot)):
+            # polarity: the default is installed when NO initial error was given
+            is_none = isinstance(st.test.ops[0], ast.Is) and \
+                isinstance(st.test.comparators[0], ast.Constant) and \
+                st.test.comparators[0].value is None
+            ctx.ob('PROP-CONSIST', is_none, None, 'the zero initial error is installed under '
+                   '`%s is None`' % init_param[0], f=f, node=st, key='default-polarity',
+                   why='the default initial error is assigned under `%s`: a supplied initial '
+                       'error is replaced by zeros (and the documented default None is used as '
+                       'it is)' % norm_text(st.test))
             for s2 in st.body:
                 if isinstance(s2, ast.Assign) and isinstance(s2.targets[0], ast.Name) and \
                         s2.targets[0].id == init_param[0]:
                     v = s2.value
                     data = v
+                    if isinstance(v, ast.Call) and (E.res(v.func) or '') == 'pandas.Series':
+                        # the default is consumed by label, like a caller's PvaError
+                        lab = next((k.value for k in v.keywords if k.arg == 'index'),
+                                   v.args[1] if len(v.args) > 1 else None)
+                        try:
+                            labs = ctx.repo.fold(lab, f.module) if lab is not None else None
+                        except ValueError:
+                            labs = 'unfolded'
+                        if labs != 'unfolded':
+                            want_l = ctx.repo.const('util.TRAJECTORY_ERROR_COLS')
+                            ctx.ob('PROP-CONSIST', labs is not None and list(labs) == list(want_l),
+                                   None, 'the default initial error carries the PvaError labels',
+                                   f=f, node=s2, key='default-labels',
+                                   why='the default initial error is a Series with labels %s; it is '
+                                       'then selected by the PvaError labels like a caller\'s: '
+                                       'KeyError (or values under other names) on the documented '
+                                       'default path' % (labs if labs is None else list(labs)[:4]))
                     if isinstance(v, ast.Call) and (E.res(v.func) or '').startswith('pandas.'):
                         data = next((k.value for k in v.keywords if k.arg == 'data'),
                                     v.args[0] if v.args else None)
